@@ -1,5 +1,14 @@
 /-
   C01 — property theorems (model: ShelxModel/C01.lean).
+
+  Per line class a render∘read law, quantified over ALL token lists / ALL rational values / ALL tables:
+    F1  split_chunks, split_join, default_render_tokens, split_kw_join      tokens of blank-separated text
+    F2  fmtFixed_parse, fmtFixed_close, atom_render_close_{aniso,iso}       numbers printed with nd places (nd from atom.py)
+        qpeak_render_partial + QpeakStatement + qpeak_fails_on              open finding (Q-peak U / precision)
+    F3  sfac_render_table (+ sfac_old_printer_fails_on: the defect repaired by fixes/C01_1)
+    F4  fvar_render_list, unit_render, size_render, acta_render, stir_render, wght_render, symm_render
+    extracted_layout, extracted_overrides, fvar_chunk_pos                   re-checked against the source every run
+    roundtrip_content                                                       the per-class laws over a whole file
 -/
 import ShelxModel.C01
 import Mathlib.Tactic.Ring
@@ -768,5 +777,150 @@ theorem wght_render (nums : List Rat) (h : nums.length ≤ 6) : SameInstr wghtDe
 example : wghtOut [1 / 10, 1 / 5, 3 / 10, 0, -3 / 10, 33333 / 100000] = [1 / 10, 1 / 5, 3 / 10, 0, -3 / 10, 33333 / 100000] := by
   decide +kernel
 example : wghtOut [1 / 20] = [1 / 20, 0] := by decide +kernel
+
+/-! ### SYMM -/
+
+theorem splitComma_tok (t rest cur : List Char) (h : ',' ∉ t) :
+    splitComma (t ++ rest) cur = splitComma rest (t.reverse ++ cur) := by
+  induction t generalizing cur with
+  | nil => simp
+  | cons c t ih =>
+    have hc : c ≠ ',' := fun e => h (by simp [e])
+    have ht : ',' ∉ t := fun e => h (by simp [e])
+    simp only [List.cons_append, splitComma, hc, if_false]
+    rw [ih _ ht]; simp
+
+theorem splitComma_join (t : Tok) (ts : List Tok) (h : ∀ c ∈ t :: ts, ',' ∉ c) :
+    splitComma (joinWith [','] (t :: ts)) [] = t :: ts := by
+  induction ts generalizing t with
+  | nil =>
+    have := splitComma_tok t [] [] (h t (by simp))
+    simp only [List.append_nil] at this
+    simp [joinWith, this, splitComma]
+  | cons u us ih =>
+    have hu : ∀ c ∈ u :: us, ',' ∉ c := fun c hc => h c (by simp at hc ⊢; tauto)
+    have e : joinWith [','] (t :: u :: us) = t ++ (',' :: joinWith [','] (u :: us)) := by simp [joinWith]
+    rw [e, splitComma_tok _ _ _ (h t (by simp))]
+    simp only [List.append_nil, splitComma, if_true, List.reverse_reverse]
+    rw [ih u hu]
+
+theorem filter_join (ts : List Tok) (h : ∀ c ∈ ts, ' ' ∉ c) :
+    ((ts.map fun u => [',', ' '] ++ u).flatten).filter (· ≠ ' ') = (ts.map fun u => [','] ++ u).flatten := by
+  induction ts with
+  | nil => rfl
+  | cons u us ih =>
+    have hu : u.filter (· ≠ ' ') = u := by
+      rw [List.filter_eq_self]; intro c hc
+      have hne : c ≠ ' ' := fun e => h u (by simp) (e ▸ hc)
+      simpa using hne
+    simp only [List.map_cons, List.flatten_cons, List.filter_append, ih (fun c hc => h c (by simp [hc])), hu]
+    simp
+
+/-- **symm_render**: `"SYMM  " + ", ".join(symmcard)` states the same operator, component by component -/
+theorem symm_render (t : Tok) (ts : List Tok) (hc : ∀ c ∈ t :: ts, ',' ∉ c) (hb : ∀ c ∈ t :: ts, ' ' ∉ c) :
+    normSymm (renderSymm (t :: ts)) = t :: ts := by
+  have e : (renderSymm (t :: ts)).drop 4 = ' ' :: ' ' :: joinWith [',', ' '] (t :: ts) := by
+    simp [renderSymm]
+  have ht : t.filter (· ≠ ' ') = t := by
+    rw [List.filter_eq_self]; intro c hc'
+    have hne : c ≠ ' ' := fun e => hb t (by simp) (e ▸ hc')
+    simpa using hne
+  unfold normSymm
+  rw [e]
+  simp only [ne_eq, decide_not, List.filter_cons, decide_true, Bool.not_true, Bool.false_eq_true, if_false]
+  have : (joinWith [',', ' '] (t :: ts)).filter (fun x => !decide (x = ' ')) = joinWith [','] (t :: ts) := by
+    have h1 := filter_join ts (fun c hc' => hb c (by simp [hc']))
+    simp only [ne_eq, decide_not] at h1 ht
+    simp only [joinWith, List.filter_append, h1, ht]
+  rw [this, splitComma_join t ts hc]
+
+example : normSymm (renderSymm (parseSymm ["Y,".toList, "X,".toList, "-Z+".toList, "0.50000".toList])) =
+    ["Y".toList, "X".toList, "-Z+0.50000".toList] := by decide +kernel
+
+/-! ### which classes print computed text -/
+
+/-- the classes of cards.py (and Atom) whose `str()` is not the stored text, re-read from the source on every run.
+    Every one of them has its lemma above (`Restraints` and `SymmCards` are containers that never sit in the list of
+    lines; `FVAR` is printed through `FVARs`). A new override makes this fail: its printer has no lemma yet. -/
+theorem extracted_overrides :
+    strOverrides = ["ACTA", "Atom", "FVAR", "FVARs", "Restraints", "SFACTable", "SIZE", "STIR", "SYMM", "SymmCards",
+      "UNIT", "WGHT"] := by decide
+
+/-! ### the file -/
+
+/-- a line of the parsed file by class, carrying what the parser stored for it (absorbed continuation lines and the
+    second, third … SFAC/FVAR line are not lines of their own: `write_shelx_file` skips them) -/
+inductive PLine where
+  | kept (toks : List Tok)         -- raw string, or object whose `str()` is `' '.join(spline)`: every other instruction
+  | sfac (es : List SfEntry)       -- the SFAC table, printed where the first SFAC line was
+  | fvar (vals : List Tok)         -- all free variables (as `repr`), printed where the first FVAR line was
+  | unit (vals : List Rat)
+  | size (nums : List Rat)
+  | acta (nums : List Rat) (words : List Tok)
+  | wght (nums : List Rat)
+  | symm (t : Tok) (ts : List Tok)
+  | atomA (name : Tok) (sfac : Nat) (x y z sof u1 u2 u3 u4 u5 u6 : Rat)
+  | atomI (name : Tok) (sfac : Nat) (x y z sof u : Rat)
+
+/-- what a valid file guarantees per line (tokens are non-empty words without blanks, entries well-formed, at most
+    as many numbers as the syntax has) -/
+def PLine.Valid : PLine → Prop
+  | .kept toks => (∀ t ∈ toks, t ≠ []) ∧ (∀ t ∈ toks, ' ' ∉ t)
+  | .sfac es => ∀ e ∈ es, SfValid e
+  | .fvar _ => True
+  | .unit _ => True
+  | .size nums => nums.length ≤ 3
+  | .acta nums _ => nums.length ≤ 1
+  | .wght nums => nums.length ≤ 6
+  | .symm t ts => (∀ c ∈ t :: ts, ',' ∉ c) ∧ (∀ c ∈ t :: ts, ' ' ∉ c)
+  | .atomA name _ _ _ _ _ _ _ _ _ _ _ => name ≠ [] ∧ ' ' ∉ name
+  | .atomI name _ _ _ _ _ _ => name ≠ [] ∧ ' ' ∉ name
+
+/-- the written form of the line states the same content (reader of the specification applied to the printer) -/
+def PLine.Lossless (pr : Rat → Tok) : PLine → Prop
+  | .kept toks => splitWs (joinBl 0 toks) = toks
+  | .sfac es => ∀ lines, renderSfac es = some lines → readSfac lines = es
+  | .fvar vals => readFvar (renderFvar vals) = vals
+  | .unit vals => (renderUnit pr vals).tail.map parseDec = vals.map some
+  | .size nums => (renderSize pr nums).tail.map parseDec = nums.map some
+  | .acta nums words => renderActa pr nums words = "ACTA".toList :: (nums.map (fmtNum pr) ++ words)
+  | .wght nums => renderWght pr nums = "WGHT".toList :: (wghtOut nums).map pr ∧ SameInstr wghtDefaults nums (wghtOut nums)
+  | .symm t ts => normSymm (renderSymm (t :: ts)) = t :: ts
+  | .atomA name sf x y z sof u1 u2 u3 u4 u5 u6 =>
+    ∀ cs, chunksOf anisFmt ([.str name, .int sf] ++ [x, y, z].map Val.num ++ [.num sof] ++ [u1, u2, u3, u4, u5, u6].map Val.num) = some cs →
+      sep false cs = true →
+      specAtomLine (splitWs (renderChunks cs)) name sf
+        [(x, tolCoord), (y, tolCoord), (z, tolCoord), (sof, tolU), (u1, tolU), (u2, tolU), (u3, tolU), (u4, tolU),
+         (u5, tolU), (u6, tolU)] = true
+  | .atomI name sf x y z sof u =>
+    ∀ cs, chunksOf isoFmt ([.str name, .int sf] ++ [x, y, z].map Val.num ++ [.num sof] ++ (u :: [0, 0, 0, 0, 0]).map Val.num) = some cs →
+      sep false cs = true →
+      specAtomLine (splitWs (renderChunks cs)) name sf [(x, tolCoord), (y, tolCoord), (z, tolCoord), (sof, tolU), (u, tolU)] = true
+
+/-- **roundtrip_content**: for every file (= any list of classified lines) every line is written losslessly.
+    PROVED, for all values: the per-class render∘read laws above (tokens kept; numbers within ½·10^(−nd) of what was
+    stored, nd read off atom.py; SFAC table, FVAR list, UNIT, SIZE, ACTA, WGHT, SYMM).
+    HYPOTHESES: `Valid` (syntactic well-formedness of the input tokens); `hpr`: CPython's `repr(float)` reads back as
+    the same number; in the atom classes `sep` (no fused columns; decidable, checked by the driver for every generated
+    atom). NOT PROVED here, tied by the correspondence streams only: that `_parse_cards` stores for each input line the
+    values the input states and replaces exactly the absorbed lines (properties C02, C03, C16), and Q-peak lines
+    (open finding, see `qpeak_render_partial`). -/
+theorem roundtrip_content (pr : Rat → Tok) (hpr : ∀ x, parseDec (pr x) = some x) (f : List PLine)
+    (hv : ∀ l ∈ f, l.Valid) : ∀ l ∈ f, l.Lossless pr := by
+  intro l hl
+  have h := hv l hl
+  cases l <;> unfold PLine.Lossless <;> unfold PLine.Valid at h
+  case kept toks => exact default_render_tokens toks h.1 h.2
+  case sfac es => exact fun lines hr => sfac_render_table es lines h hr
+  case fvar vals => exact fvar_render_list vals
+  case unit vals => exact unit_render pr hpr vals
+  case size nums => exact size_render pr hpr nums h
+  case acta nums words => exact acta_render pr nums words h
+  case wght nums => exact ⟨renderWght_eq pr nums, wght_render nums h⟩
+  case symm t ts => exact symm_render t ts h.1 h.2
+  case atomA name sfac x y z sof u1 u2 u3 u4 u5 u6 =>
+    exact fun cs hc hs => atom_render_close_aniso name sfac x y z sof u1 u2 u3 u4 u5 u6 h cs hc hs
+  case atomI name sfac x y z sof u =>
+    exact fun cs hc hs => atom_render_close_iso name sfac x y z sof u [0, 0, 0, 0, 0] h cs hc hs
 
 end Shelx.C01
